@@ -241,16 +241,17 @@ def run(ck):
     def model(ex, table=""):
         return (ex.submit(tlc, "full", "full", "TypeOK WatchIsCache NoSplit CacheAgree", table, allow_error=True, workers=4),
                 ex.submit(tlc, "cex", "gen", "ReuseNotClosed", table, pre='{"none"}', allow_error=True, workers=4, count=False),
+                ex.submit(tlc, "full2", "full", "ReuseNotClosed", table, allow_error=True, workers=2, count=False),
                 ex.submit(tlc, "sim", "gen", "EmitDone", table, simulate={"num": nsim}, depth=60, count=False, timeout=300))
     # the TLC runs are independent of each other and of the Go build: run them side by side, with the transcribed table
-    with concurrent.futures.ThreadPoolExecutor(max_workers=5) as ex:
+    with concurrent.futures.ThreadPoolExecutor(max_workers=6) as ex:
         f_build = ex.submit(ck.build, "reuse")
         f_cells = ex.submit(ck.tlc, "MC_ReuseCells", "MC_ReuseCells.cfg", workers=2)
         fm = model(ex)
         binary, rcells = f_build.result(), f_cells.result()
         # (1) the decision table is extracted from the code, cell by cell, and compared with the transcription
         _, table, differ = cells(ck, binary, rcells)
-        r, g, s = [f.result() for f in fm]
+        r, g, f2, s = [f.result() for f in fm]
     tf = ""
     if differ:
         # the model is only as good as its table: model-check again with the table the code really implements
@@ -259,8 +260,8 @@ def run(ck):
         tf = "obs_cells.ndjson"
         with open(os.path.join(sdir, tf), "w") as f:
             f.write("\n".join(json.dumps(x) for x in table) + "\n")
-        with concurrent.futures.ThreadPoolExecutor(max_workers=3) as ex:
-            r, g, s = [f.result() for f in model(ex, tf)]
+        with concurrent.futures.ThreadPoolExecutor(max_workers=4) as ex:
+            r, g, f2, s = [f.result() for f in model(ex, tf)]
     # (2) exhaustive design check: clauses 1 and 3 (and the auxiliary invariants) on every interleaving
     ck.exhaustive = r.finished and not r.error
     reachable = {tuple(x["reached"]) for x in r.printed if "reached" in x}
@@ -273,17 +274,18 @@ def run(ck):
             if g2.error and g2.trace_json:
                 last = g2.trace_json["counterexample"]["state"][-1][1]
                 cex.append(({"pre": last["pre"], "steps": last["hist"]}, r.error["name"]))
-    # clause 2: counterexample searched among the behaviours the driver can enforce, so that it can be replayed
-    if not g.error:
-        g = tlc("cex_all", "gen", "ReuseNotClosed", tf, allow_error=True, workers=4, count=False, timeout=900)
-    if g.error and g.trace_json:
-        last = g.trace_json["counterexample"]["state"][-1][1]
-        cex.append(({"pre": last["pre"], "steps": last["hist"]}, "ReuseNotClosed"))
-    else:
-        f = tlc("full2", "full", "ReuseNotClosed", tf, allow_error=True, workers=4)
-        if f.error:
+    # clause 2 on every interleaving; a counterexample is searched among the behaviours the driver can enforce, so that
+    # it can be replayed (first without, then with pre-existing entries)
+    if f2.error:
+        if not g.error:
+            g = tlc("cex_all", "gen", "ReuseNotClosed", tf, allow_error=True, workers=4, count=False, timeout=900)
+        if g.error and g.trace_json:
+            last = g.trace_json["counterexample"]["state"][-1][1]
+            cex.append(({"pre": last["pre"], "steps": last["hist"]}, "ReuseNotClosed"))
+        else:
             ck.notes.append("ReuseNotClosed fails only with reap timings the driver cannot enforce: lead only")
-            ck.exhaustive = False
+    elif not f2.finished:
+        raise vf.Infra("TLC did not finish the full model for ReuseNotClosed")
     for sc, inv in cex:
         if schedules(ck, binary, [sc], "TLC counterexample of %s" % inv) == 0 and inv != "WatchIsCache":
             raise vf.Infra("the counterexample of %s was not reproduced by the real code: the model does not describe the code" % inv)
